@@ -216,12 +216,12 @@ pub struct ArrayValue {
 impl ArrayValue {
     fn slice(&mut self, left: Option<usize>, right: Option<usize>) {
         if let Some(items) = self.items.as_mut() {
-            if let Some(left) = left {
-                items.drain(..left);
-            }
+            // bounds are user input, clamp it to the actual array length
+            let left = left.unwrap_or_default().min(items.len());
+            items.drain(..left);
 
             if let Some(right) = right {
-                let remove_range = right - left.unwrap_or_default()..;
+                let remove_range = right.saturating_sub(left)..;
                 if remove_range.start < items.len() {
                     items.drain(remove_range);
                 };
@@ -303,13 +303,20 @@ impl PointerValue {
         let target_type = self.target_type?;
         let deref_size = pcx.type_graph.type_size_in_bytes(pcx.evcx, target_type)? as usize;
 
+        if deref_size == 0 {
+            // a pointer to zero sized type, nothing to read
+            return None;
+        }
+
         self.value.and_then(|ptr| {
+            // bounds are user input, the arithmetic must not overflow
             let left = left.unwrap_or_default();
-            let base_addr = ptr as usize + deref_size * left;
+            let count = right.checked_sub(left)?;
+            let base_addr = (ptr as usize).checked_add(deref_size.checked_mul(left)?)?;
             let raw_data = weak_error!(debugger::read_memory_by_pid(
                 pcx.evcx.ecx.pid_on_focus(),
                 base_addr,
-                deref_size * (right - left)
+                deref_size.checked_mul(count)?
             ))?;
             let raw_data = bytes::Bytes::from(raw_data);
 
